@@ -23,6 +23,10 @@ ASSUMPTIONS = ["snapshots compare object identities, not reprs", "graphviz 'dot'
 OPS = ["run_ok", "run_fail", "run_stalefail", "run_cycle", "dry", "render", "render_dry", "concurrent", "concurrent_reg", "copies", "run_opts", "foreign_entry", "run_dry_plan", "stub_source", "scope_independence"]
 
 
+def _anyargs(*a, **k):
+    return len(a) + len(k)
+
+
 def gen_cases(tier, seed):
     n = 1500 if tier == "quick" else 30000
     out = []
@@ -333,6 +337,14 @@ def run_case(desc):
             x = p2.call(len, [1, 2])
             some = list(p2.graph.nodes())
             p2.add_dependency(some[0], x)
+            # ... and go on building on the copy the way a user would: inside a scope, new calls and gathers that take nodes of the shared part
+            # (calls and literals, scoped and unscoped) as explicit arguments, positionally, by keyword and inside containers
+            with p2.scope("built-on-the-copy", rng.randint(0, 3)):
+                picks = rng.sample(some, min(len(some), 4))
+                p2.call(_anyargs, *picks, k=picks[0])
+                p2.gather([picks, {"k": picks[-1]}, (picks[0],)])
+                for nd_ in picks[:2]:
+                    p2.call(_anyargs, nd_)
             if rng.random() < 0.5 and len(some) > 1:
                 p2.graph.remove_node(some[1])
             bad = compare("mutating Plan.copy()")
@@ -342,6 +354,10 @@ def run_case(desc):
                 s3 = snapshot.plan_snapshot(p3)
                 y = plan.call(len, [3])
                 plan.add_dependency(list(plan.graph.nodes())[0], y)
+                with plan.scope("built-on-the-original", rng.randint(0, 3)):
+                    picks = rng.sample(list(p3.graph.nodes()), min(len(p3.graph), 4))
+                    plan.call(_anyargs, *picks, k=picks[0])
+                    plan.gather([picks, {"k": picks[-1]}])
                 counters["snapshots_compared"] += 1
                 d = snapshot.diff(s3, snapshot.plan_snapshot(p3))
                 if d:
